@@ -19,6 +19,16 @@ let () =
         String.concat "," (List.map string_of_z (pcg_stream (zs seed) (zs seq) (nat_of_int (int_of_string n))))
       | ["29"; seed; seq; n] ->      (* the engine assembled from REGENERATED pieces (GenRandom.gen_stream), machine reading *)
         String.concat "," (List.map string_of_z (gen_stream (zs seed) (zs seq) (nat_of_int (int_of_string n))))
+      | ["70"; t; a; b] ->           (* divRoundUp<T>, T = int8 uint8 int16 uint16 int32 uint32 int64 uint64 (ids 0..7) *)
+        (match int_of_string t with
+         | 0 -> string_of_z (divRoundUp_n true (z_of_int 8) (zs a) (zs b))
+         | 1 -> string_of_z (divRoundUp_n false (z_of_int 8) (zs a) (zs b))
+         | 2 -> string_of_z (divRoundUp_n true (z_of_int 16) (zs a) (zs b))
+         | 3 -> string_of_z (divRoundUp_n false (z_of_int 16) (zs a) (zs b))
+         | 4 | 6 -> string_of_z (divRoundUp (zs a) (zs b))
+         | 5 -> string_of_z (divRoundUp_u (z_of_int 32) (zs a) (zs b))
+         | _ -> string_of_z (divRoundUp_u (z_of_int 64) (zs a) (zs b)))
+      | ["71"; _; x; lo; hi] -> string_of_z (clampZ (zs x) (zs lo) (zs hi))
       | ["26"; a; b; c; d] -> string_of_z (pack (zs a) (zs b) (zs c) (zs d))
       | _ -> "?" in
     print_endline out
